@@ -52,6 +52,9 @@ def run(tier):
 
     run = Run("C15", tier)
     run.confirm_known()
+    import importlib
+    os.environ.setdefault("VERIF_NATIVE", "1")
+    hcommon = importlib.import_module("harness.common")
     rnd = random.Random(run.seed)
     q = Queries()
     specs = shapes(tier, rnd)
@@ -108,8 +111,10 @@ def run(tier):
                 if not q.member(r1, w):
                     run.errors.append(f"translator validation: generated word {w!r} not in the regex of {spec!r}")
             for w in q.sample(r1, 2):
-                if g1.parse(w) is None:
-                    run.errors.append(f"translator validation: regex word {w!r} not parsed by the grammar {spec!r}")
+                # against the independent reference recogniser (not the parser under test: a word the parser wrongly
+                # rejects is C05's business - that is how known finding C05-starrep was found)
+                if not hcommon.member(g1, w):
+                    run.errors.append(f"translator validation: regex word {w!r} is not in the reference language of {spec!r}")
             validated += 1
         if len(run.samples) < 6:
             run.samples.append({"spec": spec.splitlines()[0], "printed": printed.splitlines()[0], "answer": res, "word": word})
